@@ -35,8 +35,8 @@ M = [
   "            if (!sz) {\n                channel_abort_write(channel);\n            } else {",
   "            if (!sz) {\n                channel_abort_write(channel);\n                ++iframe;\n            } else {"),
  ("m-witness-header-field", CL + "acquire-device-properties/device/props/components.h",
-  "        uint64_t frame_id;\n        uint64_t hardware_frame_id;",
-  "        uint32_t frame_id;\n        uint64_t hardware_frame_id;\n        uint32_t stream;"),
+  "        size_t bytes_of_frame;\n        struct ImageShape shape;",
+  "        uint32_t bytes_of_frame;\n        struct ImageShape shape;"),
  ("m-step-fixed-stride", RT + "runtime/frame_iterator.c",
   "    it->remaining.beg += cur->bytes_of_frame;",
   "    it->remaining.beg += sizeof(*cur) + bytes_of_image(&cur->shape);"),
